@@ -402,6 +402,7 @@ def check(model, tier):
     # reordering between two iteration engines (preferred_engine) must not change rows: the C04 commutation rules
     from ..rules import commute as _commute
 
+    expressions.r12_2_function_lookup(ctx, rule="R01.19")  # how a function name becomes a callable decides the rows of every selection/calculation
     from ..rules import mergeeval as _mergeeval
 
     _mergeeval.r05_9_merge_semantics(ctx, rule="R01.18")
